@@ -153,12 +153,19 @@ void Builder::formatDate( std::string& dest, const Part& part_def,
    // format date, time or timestamp
    auto const  use_format_str = part_def.mConstant.empty() ? format_str :
                                 part_def.mConstant.c_str();
-   char        timestamp_str[ 128];
+   auto const  broken_down = ::localtime( &timestamp);
+   std::string timestamp_str( 128, '\0');
+   size_t      length = 0;
 
 
-   ::strftime( timestamp_str, sizeof( timestamp_str) - 1, use_format_str,
-               ::localtime( &timestamp));
-   dest.append( timestamp_str);
+   // strftime() returns 0 and leaves the buffer contents undefined when the
+   // result does not fit: retry with a bigger buffer
+   while (((length = ::strftime( &timestamp_str[ 0], timestamp_str.size(),
+                                 use_format_str, broken_down)) == 0)
+          && (timestamp_str.size() < 65536))
+      timestamp_str.resize( timestamp_str.size() * 2);
+
+   dest.append( timestamp_str, 0, length);
 
 } // Builder::formatDate
 
